@@ -1317,6 +1317,24 @@ func runRefMut(c *mon.Case) {
 	mixed := r.Chance(0.12)
 	ref, seqs := genRefSet(r, a, mixed)
 	L := len(ref)
+	if !mixed && r.Chance(0.15) {
+		// a column where the reference and every sequence carry the SAME character outside the alphabet
+		// ('*', '.', or X in nucleotides): identical characters are never a substitution
+		j := r.Intn(L)
+		sp := []byte{'*', '.', 'X'}[r.Intn(3)]
+		if a.protein && sp == 'X' {
+			sp = '*'
+		}
+		rb := []byte(ref)
+		rb[j] = sp
+		ref = string(rb)
+		for i := range seqs {
+			sb := []byte(seqs[i])
+			sb[j] = sp
+			seqs[i] = string(sb)
+		}
+		c.Count("refmut:identical-special-character-column")
+	}
 	mode := []string{"first", "chosen", "external", "external", "wrong-length"}[r.Intn(5)]
 	rows := []string{}
 	refIdx := -1
@@ -1839,6 +1857,7 @@ func main() {
 	mon.Floor("op:maxchar-after-edit", 500)
 	mon.Floor("op:seqbag-counts", 500)
 	cliFloors()
+	mon.Floor("cli-multi:ok", 60)
 	mon.Main("C14", []mon.Sub{
 		{Name: "witness", Quick: 12, Thorough: 12, Run: runWitness},
 		{Name: "iupac", Quick: 512, Thorough: 512, Run: runIupac},
@@ -1850,5 +1869,6 @@ func main() {
 		{Name: "refmut", Quick: 8000, Thorough: 150000, Run: runRefMut},
 		{Name: "codon", Quick: 3000, Thorough: 40000, Run: runCodon},
 		{Name: "cli", Quick: 368, Thorough: 3680, Serial: true, Run: runCli},
+		{Name: "cli-multi", Quick: 130, Thorough: 1300, Run: runCliMulti},
 	})
 }
